@@ -172,3 +172,64 @@ func readsField(c *Check, fn *ssa.Function, key engine.FieldKey) bool {
 	}
 	return false
 }
+
+// --- role-based lookups for unexported helpers (renaming them must not disturb a rule) ---
+
+// selectorFilterFunc: the Selector method that takes a model.BuildNode, narrows it to *model.Target and returns bool.
+func selectorFilterFunc(c *Check, rule string) *ssa.Function {
+	var cands []*ssa.Function
+	for _, fn := range c.P.Funcs {
+		if !engine.InPackage(fn, "selection") || fn.Signature.Recv() == nil || engine.TypeKey(fn.Signature.Recv().Type()) != "selection.Selector" {
+			continue
+		}
+		if fn.Signature.Params().Len() != 1 || engine.TypeKey(fn.Signature.Params().At(0).Type()) != "model.BuildNode" {
+			continue
+		}
+		if fn.Signature.Results().Len() != 1 || fn.Signature.Results().At(0).Type().String() != "bool" {
+			continue
+		}
+		for _, b := range fn.Blocks {
+			for _, in := range b.Instrs {
+				if ta, ok := in.(*ssa.TypeAssert); ok && engine.TypeKey(ta.AssertedType) == "model.Target" {
+					cands = append(cands, fn)
+				}
+			}
+		}
+	}
+	if len(cands) == 0 {
+		c.Unknown(rule, "anchor/selector-filter", "anchor-unresolved: no Selector method narrows a model.BuildNode to a target and returns bool", "-")
+		return nil
+	}
+	return cands[0]
+}
+
+// enrichFunc: the loading function that turns a PackageDTO into a *model.Package.
+func enrichFunc(c *Check, rule string) *ssa.Function {
+	for _, fn := range c.P.Funcs {
+		if !engine.InPackage(fn, "loading") || fn.Parent() != nil {
+			continue
+		}
+		hasDTO := false
+		for i := 0; i < fn.Signature.Params().Len(); i++ {
+			if engine.TypeKey(fn.Signature.Params().At(i).Type()) == "loading.PackageDTO" {
+				hasDTO = true
+			}
+		}
+		if hasDTO && fn.Signature.Results().Len() >= 1 && engine.TypeKey(fn.Signature.Results().At(0).Type()) == "model.Package" {
+			return fn
+		}
+	}
+	c.Unknown(rule, "anchor/enrichment", "anchor-unresolved: no function in internal/loading turns a PackageDTO into a *model.Package", "-")
+	return nil
+}
+
+// withinWorkspaceFunc: the analysis function that decides containment with filepath.Rel.
+func withinWorkspaceFunc(c *Check, rule string) *ssa.Function {
+	for _, fn := range c.P.Funcs {
+		if engine.InPackage(fn, "analysis") && fn.Parent() == nil && len(callsNamed(fn, "path/filepath.Rel")) > 0 {
+			return fn
+		}
+	}
+	c.Unknown(rule, "anchor/within-workspace", "anchor-unresolved: no function in internal/analysis computes a workspace-relative path (filepath.Rel)", "-")
+	return nil
+}
